@@ -1711,8 +1711,12 @@ where
                     packet.topic_name(),
                     ta
                 );
-                if let Some(ref mut topic_alias_send) = self.topic_alias_send {
-                    topic_alias_send.insert_or_update(packet.topic_name(), ta);
+                // Only a packet that is sent now tells the receiver about the alias: a packet
+                // that is merely queued goes out later with its full topic and no alias
+                if self.status == ConnectionStatus::Connected {
+                    if let Some(ref mut topic_alias_send) = self.topic_alias_send {
+                        topic_alias_send.insert_or_update(packet.topic_name(), ta);
+                    }
                 }
             } else {
                 events.push(GenericEvent::NotifyError(MqttError::PacketNotAllowedToSend));
